@@ -79,6 +79,9 @@ def _literal_seq(n):
         return list(n.elts)
     if isinstance(n, ast.Constant) and isinstance(n.value, str):
         return [ast.Constant(value=ch) for ch in n.value]
+    if isinstance(n, ast.Call) and isinstance(n.func, ast.Attribute) and n.func.attr == "split" and not n.args and not n.keywords \
+            and isinstance(n.func.value, ast.Constant) and isinstance(n.func.value.value, str):
+        return [ast.Constant(value=w) for w in n.func.value.value.split()]   # "M CM D".split()
     return None
 
 
@@ -214,8 +217,10 @@ class Normaliser:
                 b = b | _bound_names(g.target)
                 gens.append(ast.comprehension(target=g.target, iter=it, ifs=[self.subst(c, env, b) for c in g.ifs], is_async=g.is_async))
             if isinstance(node, ast.DictComp):
-                return ast.DictComp(key=self.subst(node.key, env, b), value=self.subst(node.value, env, b), generators=gens)
-            return type(node)(elt=self.subst(node.elt, env, b), generators=gens)
+                out = ast.DictComp(key=self.subst(node.key, env, b), value=self.subst(node.value, env, b), generators=gens)
+            else:
+                out = type(node)(elt=self.subst(node.elt, env, b), generators=gens)
+            return _Prepass()._flatten_gens(out)   # a temporary that held `tuple(y for y in S if c)` has just been put in place
         if isinstance(node, ast.NamedExpr):
             raise Unsupported("walrus")
         if isinstance(node, ast.Call) and self.depth < 3:
@@ -241,7 +246,29 @@ class Normaliser:
                 setattr(new, fld, [self.subst(x, env, bound) if isinstance(x, ast.AST) else x for x in val])
             else:
                 setattr(new, fld, val)
+        if isinstance(new, ast.Call) and isinstance(new.func, ast.Lambda):
+            red = self.beta(new)
+            if red is not None:
+                return red
         return new
+
+    def beta(self, call):
+        """(lambda p, q: body)(a, b) with plain positional parameters and side-effect free arguments is body[p := a, q := b]"""
+        lam = call.func
+        a = lam.args
+        if a.vararg or a.kwarg or a.kwonlyargs or a.posonlyargs or a.defaults or call.keywords or len(a.args) != len(call.args) \
+                or any(isinstance(x, ast.Starred) for x in call.args) or not all(self.pure(x) for x in call.args):
+            return None
+        params = [p_.arg for p_ in a.args]
+        inner = set()
+        for x in ast.walk(lam.body):
+            if isinstance(x, ast.comprehension):
+                inner |= _bound_names(x.target)
+            elif isinstance(x, ast.Lambda):
+                inner |= {p_.arg for p_ in x.args.posonlyargs + x.args.args + x.args.kwonlyargs}
+        if any(isinstance(x, ast.Name) and x.id in inner for v in call.args for x in ast.walk(v)) or (set(params) & inner):
+            return None   # an argument would be captured by a binder inside the body
+        return self.subst(lam.body, dict(zip(params, call.args)))
 
     def inline_ast(self, helper, call, env, bound, bound_self=None):
         """the value of a call of a loop-free helper as an expression (None when the helper is not of that simple kind)"""
@@ -462,6 +489,8 @@ class Normaliser:
         args = [self.ex(a, benv) for a in n.args]
         if (fname in CONSUMERS or (isinstance(f, ast.Attribute) and f.attr == "join")) and args and isinstance(args[0], tuple) and args[0] and args[0][0] == "comp" and args[0][1] == "list":
             args[0] = ("comp", "gen") + args[0][2:]   # the consumer only iterates: a list comprehension and a generator expression coincide
+        if fname in ("isinstance", "issubclass") and len(args) == 2 and isinstance(args[1], tuple) and len(args[1]) == 2 and args[1][0] == "Tuple" and len(args[1][1]) == 1:
+            args[1] = args[1][1][0]   # a one-element tuple of classes is that class
         if fname in ("list", "set") and fname not in benv and len(args) == 1 and not n.keywords and isinstance(args[0], tuple) and args[0] and args[0][0] == "comp" and args[0][1] in ("gen", "list"):
             return ("comp", fname) + args[0][2:]   # list(e for ...) is [e for ...]
         kws = [(k.arg, self.ex(k.value, benv)) for k in n.keywords]
@@ -1642,6 +1671,30 @@ class _Prepass(ast.NodeTransformer):
         node.body = self._guards(list(node.body)) or [ast.Pass()]
         return self.generic_visit(node)
 
+    # ---- comprehensions: `for x in tuple(y for y in S if c)` inside a comprehension is `for x in S if c[y := x]`
+    def _flatten_gens(self, node):
+        for g in node.generators:
+            it = g.iter
+            if isinstance(it, ast.Call) and isinstance(it.func, ast.Name) and it.func.id in ("tuple", "list") and len(it.args) == 1 and not it.keywords:
+                it = it.args[0]
+            if isinstance(it, (ast.GeneratorExp, ast.ListComp)) and len(it.generators) == 1 and isinstance(it.elt, ast.Name) and isinstance(it.generators[0].target, ast.Name) \
+                    and it.elt.id == it.generators[0].target.id and isinstance(g.target, ast.Name) and not it.generators[0].is_async:
+                inner = it.generators[0]
+                ren = _Rename({inner.target.id: g.target.id})
+                import copy
+                if inner.target.id != g.target.id and (any(isinstance(x, ast.Name) and x.id == g.target.id for c in inner.ifs for x in ast.walk(c))
+                                                       or any(isinstance(x, ast.Name) and x.id == g.target.id for x in ast.walk(inner.iter))):
+                    continue
+                g.iter = inner.iter
+                g.ifs = [ren.visit(copy.deepcopy(c)) for c in inner.ifs] + list(g.ifs)
+        return node
+
+    def visit_ListComp(self, node):
+        self.generic_visit(node)
+        return self._flatten_gens(node)
+
+    visit_SetComp = visit_GeneratorExp = visit_DictComp = visit_ListComp
+
     # ---- expressions
     def visit_Compare(self, node):
         self.generic_visit(node)
@@ -1761,21 +1814,28 @@ def _loop_as_any(lp, ret, read_outside=None):
 
 
 def _loop_as_extend(lp):
+    """for t in it: [if c: [if c2:]] L.append(e)  ->  L.extend(e for t in it if c if c2)   (L.extend(it) when e is t and there is no condition);
+    likewise S.add(e) -> S.update(...)"""
     if lp.orelse or len(lp.body) != 1:
         return None
     b = lp.body[0]
-    if not (isinstance(b, ast.Expr) and isinstance(b.value, ast.Call) and isinstance(b.value.func, ast.Attribute) and b.value.func.attr == "append"
+    conds = []
+    while isinstance(b, ast.If) and not b.orelse and len(b.body) == 1:
+        conds.append(b.test)
+        b = b.body[0]
+    if not (isinstance(b, ast.Expr) and isinstance(b.value, ast.Call) and isinstance(b.value.func, ast.Attribute) and b.value.func.attr in ("append", "add")
             and isinstance(b.value.func.value, ast.Name) and len(b.value.args) == 1 and not b.value.keywords):
         return None
     lst = b.value.func.value
     e = b.value.args[0]
-    if _uses(lp.iter, lst.id) or _uses(e, lst.id) or lst.id in _bound_names(lp.target):
+    if _uses(lp.iter, lst.id) or _uses(e, lst.id) or lst.id in _bound_names(lp.target) or any(_uses(c, lst.id) for c in conds):
         return None
-    if isinstance(e, ast.Name) and isinstance(lp.target, ast.Name) and e.id == lp.target.id:
+    if isinstance(e, ast.Name) and isinstance(lp.target, ast.Name) and e.id == lp.target.id and not conds:
         arg = lp.iter
     else:
-        arg = ast.GeneratorExp(elt=e, generators=[ast.comprehension(target=lp.target, iter=lp.iter, ifs=[], is_async=0)])
-    return ast.copy_location(ast.Expr(value=ast.Call(func=ast.Attribute(value=lst, attr="extend", ctx=ast.Load()), args=[arg], keywords=[])), lp)
+        arg = ast.GeneratorExp(elt=e, generators=[ast.comprehension(target=lp.target, iter=lp.iter, ifs=conds, is_async=0)])
+    meth = "extend" if b.value.func.attr == "append" else "update"
+    return ast.fix_missing_locations(ast.copy_location(ast.Expr(value=ast.Call(func=ast.Attribute(value=lst, attr=meth, ctx=ast.Load()), args=[arg], keywords=[])), lp))
 
 
 def _scope_names(fn) -> set:
@@ -2746,7 +2806,11 @@ def _effect_evaluates(eff, e) -> bool:
     if k in ("bind", "store"):
         return _evaluates(eff[1], e) or _evaluates(eff[2], e)
     if k in ("if", "while"):
-        return _evaluates(eff[1], e)
+        if _evaluates(eff[1], e):
+            return True
+        if k == "if" and isinstance(eff[1], tuple) and eff[1] and eff[1][0] in ("n", "v", "k") and eff[2] and eff[3]:
+            return _effect_evaluates(eff[2][0], e) and _effect_evaluates(eff[3][0], e)   # the test is a plain name: whichever arm runs evaluates e first
+        return False
     if k == "for":
         return _evaluates(eff[2], e)
     return False
